@@ -215,3 +215,13 @@ def oracle_C02(rec):
 
 
 ORACLES = {"C02": oracle_C02}
+
+
+def shrink_candidates(rec):
+    c = case_from_record(rec)
+    c["mode"] = rec.cfg.get("mode", "normal")
+    n = len(c["X"])
+    for i in range(n):
+        if n > 1:
+            keep = [j for j in range(n) if j != i]
+            yield dict(c, X=c["X"][keep], Xo=c["Xo"][keep])
